@@ -26,7 +26,9 @@ import vlib
 ENV = {"JDK_JAVA_OPTIONS": "-Xss1g"}
 WORKERS = int(os.environ.get("VERIF_WORKERS", "8"))
 
-SIZES = {"small": (200, 256), "mid": (600, 1024), "large": (5000, 8192)}   # constraints, setup degree
+# constraints, setup degree.  "edge": size 512, quotient domain exactly 2^12 = the length at which the
+# parallel FFT paths start (thread-count thresholds bite earliest there: ceil(m/threads) is smallest)
+SIZES = {"small": (200, 256), "edge": (400, 512), "mid": (600, 1024), "large": (5000, 8192)}
 SEEDS = [1, 2]
 
 
